@@ -301,6 +301,8 @@ def r1_cursor_discipline(ctx):
             if m2:
                 # try_consume_word: pos = beg + word.len() under src[beg..end] == word bytes
                 facts = [sh(ne(fn.deep(fn.blocks[S]["t"]["d"]))) for S, al in fn.constraints(b) if label_names(fn, S, al) == {"true"}]
+                # `a != b` on its false outcome is the same knowledge as `a == b` on its true outcome
+                facts += ["eq(" + sh(ne(fn.deep(fn.blocks[S]["t"]["d"])))[3:] for S, al in fn.constraints(b) if label_names(fn, S, al) == {"false"} and sh(ne(fn.deep(fn.blocks[S]["t"]["d"]))).startswith("ne(")]
                 if any(f.startswith("eq(index(self.src,Range::Range{%s," % m2.group(1)) and m2.group(2) in f for f in facts):
                     caller_checks.append((fn.id, b, ["WORD:%s" % m2.group(2)]))
                     ctx.ok(key + "|word-advance", where, "pos = %s after a byte-wise match of the word (ASCII words checked at the call sites)" % rhs)
